@@ -241,6 +241,17 @@ def build(sc, f):
     return cls(f, tuple(sc['area']), res, no_boundary_error=sc['nbe'], function_boundaries=b)
 
 
+def spec_nodes(sc):
+    """the node arrays the documented construction yields (never read from the object under test, so a constructor
+    that builds a wrong or degenerate grid cannot derail the generators or relax an oracle)"""
+    out = []
+    for d in range(sc['dim']):
+        lo, hi, r = sc['area'][2 * d], sc['area'][2 * d + 1], sc['res'][d]
+        n = max(int((hi - lo) / r) + 1, 2)
+        out.append(np.concatenate((np.array([lo - r]), np.linspace(lo - EPS, hi + EPS, n), np.array([hi + r]))))
+    return out
+
+
 def domains(c, dim):
     return [np.array(getattr(c, AX[d] + '_domain_view')) for d in range(dim)]
 
@@ -284,10 +295,76 @@ def rnd_scenario_aniso(rng, dim, a=None):
     return sc
 
 
+DEGENERATE = ['res>extent', 'res=extent', 'res just below extent', 'res just above extent/2', 'extent tiny',
+              'extent huge', 'one cell', 'two cells']
+
+
+def rnd_scenario_degenerate(rng, dim, axis, mode):
+    """degenerate caching areas / resolutions on one axis (the others ordinary): resolution larger than, equal to or
+    just below the extent, one- and two-cell axes, tiny and huge extents"""
+    area, res = [], []
+    for d in range(dim):
+        if d != axis:
+            lo, hi, r = rnd_axis(rng, min(dim + 1, 3))
+        else:
+            L = rng.choice([1.0, 0.2, 3.0, 0.05])
+            lo = L * rng.uniform(-1.0, 0.5) * rng.choice([0, 1])
+            if mode == 'res>extent':
+                # (larger ratios combined with functions that grow towards the far outer nodes enter the float-fragile
+                #  regime of the known findings: the outer nodes stretch the globally normalised coordinate)
+                r = L * rng.choice([1.0000001, 1.5, 2.5, 10.0] + ([100.0] if dim < 3 else []) + ([1e3] if dim == 1 else []))
+            elif mode == 'res=extent':
+                r = L
+            elif mode == 'res just below extent':
+                r = L * rng.choice([0.9999999, 0.99, 0.75, 0.51])
+            elif mode == 'res just above extent/2':
+                r = L * rng.choice([0.5, 0.5000001, 0.4999999])
+            elif mode == 'extent tiny':
+                L = rng.choice([1e-6, 3e-6, 1e-5])
+                lo = 0.0
+                r = L / rng.choice([0.7, 1.0, 2.0, 4.0])
+            elif mode == 'extent huge':
+                L = rng.choice([1e5, 1e6, 1e7])
+                lo = -L * rng.choice([0.0, 0.5])
+                r = L / rng.choice([0.5, 1.0, 3.0, 7.0])
+            elif mode == 'one cell':
+                r = L * rng.uniform(0.51, 0.99)
+            else:
+                r = L * rng.uniform(0.34, 0.49)
+            hi = lo + L
+        area += [lo, hi]
+        res.append(r)
+    kind = rng.choice(['smooth', 'multilinear', 'multilinear'])
+    sc = dict(dim=dim, area=area, res=res, nbe=rng.random() < 0.5,
+              bounds=rng.choice([None, None, (-3.0, 20.0), (5.0, 5.0)]), fn=rnd_fn(rng, dim, area, kind),
+              degenerate=(axis, mode))
+    sc['points'] = rnd_points(rng, sc, n_in={1: 6, 2: 5, 3: 2}[dim])
+    # the corners and the centre of the area are always part of the multiset
+    sc['points'] += [tuple(area[2 * d] for d in range(dim)), tuple(area[2 * d + 1] for d in range(dim)),
+                     tuple(0.5 * (area[2 * d] + area[2 * d + 1]) for d in range(dim))]
+    return sc
+
+
+def eps_absorbed_probe(ctx):
+    """monitor (not a verdict): when |max| >= ~1e9 the constructor's `max + EPSILON` rounds to `max`, and the point `max`
+    itself falls outside the last cell.  Recorded in the evidence; see notes/C14.md (round 4)."""
+    import cherab.core.math as cm
+    res = {}
+    for mx in (1e8, 1e9, 1e12):
+        c = cm.Caching1D(lambda x: 1.0 + 1e-12 * x, (0.0, mx), mx / 3.0)
+        try:
+            c(mx)
+            res[repr(mx)] = 'value'
+        except ValueError:
+            res[repr(mx)] = 'ValueError'
+        ctx.case(key=('eps-probe', mx))
+    ctx.extra['monitor_upper_edge_when_epsilon_absorbed'] = res
+    ctx.count('monitor:upper-edge-rejected-when-epsilon-absorbed', sum(1 for v in res.values() if v != 'value'))
+
+
 def rnd_raising(rng, sc):
     """make the wrapped function raise at the nodes of one grid plane (first k raising calls, or always)"""
-    c = build(sc, lambda *a: 0.0)
-    dom = domains(c, sc['dim'])
+    dom = spec_nodes(sc)
     a = rng.randrange(sc['dim'])
     node = float(dom[a][rng.randint(0, len(dom[a]) - 1)])
     w = 1e-9 * max(1.0, abs(node)) if rng.random() < 0.7 else 0.3 * (sc['area'][2 * a + 1] - sc['area'][2 * a])
@@ -297,8 +374,7 @@ def rnd_raising(rng, sc):
 def rnd_points(rng, sc, n_in=None):
     """inside points, exact nodes, area corners, epsilon band, outside, repeated"""
     dim, area = sc['dim'], sc['area']
-    c = build(sc, lambda *a: 0.0)
-    dom = domains(c, dim)
+    dom = spec_nodes(sc)
     n_in = n_in or {1: 14, 2: 8, 3: 3}[dim]
     pts = []
 
@@ -340,6 +416,11 @@ def classify(sc, p):
     worst = 'inside'
     for d in range(sc['dim']):
         lo, hi, v = sc['area'][2 * d], sc['area'][2 * d + 1], p[d]
+        if v == hi and hi + EPS == hi:
+            # |max| so large that max + EPSILON rounds to max: the code's half-open top cell then excludes max itself.
+            # Not judged here (see eps_absorbed_probe, which records what the code does as a monitor).
+            worst = 'band' if worst == 'inside' else worst
+            continue
         if lo <= v <= hi:
             continue
         if lo - 1.5 * EPS <= v < lo or hi < v <= hi + 1.5 * EPS:
@@ -383,13 +464,16 @@ def same_float(a, b):
 
 
 def scale_of(sc):
+    """magnitude of the data the cache works with: |f| over the corners and centre of the caching area *and* over the
+    corners of the box of outer nodes (min - resolution, max + resolution), where the function is sampled as well"""
     f = Fn(dict(sc['fn'], nan=None))
     dim = sc['dim']
     vals = []
     for e in range(2 ** dim):
         vals.append(abs(f(*[sc['area'][2 * d + ((e >> d) & 1)] for d in range(dim)])))
+        vals.append(abs(f(*[sc['area'][2 * d + ((e >> d) & 1)] + (2 * ((e >> d) & 1) - 1) * sc['res'][d] for d in range(dim)])))
     vals.append(abs(f(*[0.5 * (sc['area'][2 * d] + sc['area'][2 * d + 1]) for d in range(dim)])))
-    s = max(vals) + abs(sc['fn'].get('A', 0.0))
+    s = max(v for v in vals if math.isfinite(v)) + abs(sc['fn'].get('A', 0.0))
     if sc['bounds'] is not None:
         s = max(s, abs(sc['bounds'][0]), abs(sc['bounds'][1]))
     return max(s, 1e-300)
@@ -591,6 +675,39 @@ def s_raising(ctx, sc, results):
                 ctx.count('S:raising:value-equals-fresh-cache')
 
 
+def s_cached(ctx, sc):
+    """the class promises caching: a point inside the area evaluated a second time must not reach the wrapped function
+    again, and must give the same value (also with no_boundary_error=True, which only concerns points outside)"""
+    if sc.get('raising') is not None or Fn(sc['fn']).nan is not None:
+        return
+    rec = Rec(Fn(sc['fn']))
+    try:
+        c = build(sc, rec)
+    except Exception as e:  # noqa
+        ctx.fail(fail_sig(sc, 'constructor-rejects-valid-area'),
+                 'area %r resolution %r: %s: %s' % (sc['area'], sc['res'], type(e).__name__, str(e)[:120]),
+                 dict(check='cached', scenario=_short(sc), point=list(sc['points'][0]) if sc['points'] else []))
+        return
+    for p in sc['points']:
+        if classify(sc, p) != 'inside':
+            continue
+        try:
+            v1 = c(*p)
+            n1 = len(rec.calls)
+            v2 = c(*p)
+        except Exception:  # noqa -- reported by s_outside / s_values with its own signature
+            continue
+        ctx.case(key=('cached', sc['dim'], f2b(p[0])))
+        if len(rec.calls) != n1 or not same_float(v1, v2):
+            ctx.fail(fail_sig(sc, 'inside-point-not-cached'),
+                     'point %r inside the caching area %r (resolution %r, no_boundary_error=%r): evaluated twice in a row, the '
+                     'second evaluation called the wrapped function %d more times (values %r, %r)'
+                     % (p, sc['area'], sc['res'], sc['nbe'], len(rec.calls) - n1, v1, v2),
+                     dict(check='cached', scenario=_short(sc), point=p))
+            return
+        ctx.count('S:repeat-evaluation-served-from-cache')
+
+
 def s_outside(ctx, sc, results):
     f = Fn(sc['fn'])
     for order, out in results:
@@ -641,7 +758,7 @@ def s_values(ctx, sc, c, n_extra, rng):
     if fn.nan is not None:
         return
     dim = sc['dim']
-    dom = domains(c, dim)
+    dom = spec_nodes(sc)
     scale = scale_of(sc)
     floor = 1e-9 * scale
     H = [spec_spacing(sc, d) for d in range(dim)]
@@ -787,7 +904,7 @@ def s_witness(ctx, w):
     fn = Fn(sc['fn'])
     c = build(sc, fn)
     dim = sc['dim']
-    dom = domains(c, dim)
+    dom = spec_nodes(sc)
     rng = random.Random('C14-witness-' + w['name'])
     sc = dict(sc, points=[], fragile=True)
     for _ in range(w['cells']):
@@ -830,7 +947,7 @@ def explore_fragile(ctx, n):
             c = build(sc, fn)
         except MemoryError:
             continue
-        dom = domains(c, dim)
+        dom = spec_nodes(sc)
         fired = False
         for _ in range(6):
             ix = [rng.randint(1, len(dom[d]) - 3) for d in range(dim)]
@@ -846,7 +963,6 @@ def explore_fragile(ctx, n):
 
 def _single_point_oracle(ctx, sc, c, fn, p):
     dim = sc['dim']
-    dom = domains(c, dim)
     scale = scale_of(sc)
     floor = 1e-9 * scale
     H = [spec_spacing(sc, d) for d in range(dim)]
@@ -875,6 +991,30 @@ def _single_point_oracle(ctx, sc, c, fn, p):
 
 # ----------------------------------------------------------------------------------------------------------------
 def run_scenario(ctx, drv, sc, nperm, do_k=True):
+    """safety net: whatever the code under test does (wrong shapes, degenerate grids, unexpected exception types), a
+    harness exception while processing a scenario is a *result* about that scenario, never an infrastructure failure:
+    it is recorded as a broken correspondence stream and the model-free point oracles are run on the scenario"""
+    try:
+        _run_scenario(ctx, drv, sc, nperm, do_k)
+    except Exception as e:  # noqa
+        import traceback
+        ctx.count('scenario-derailed-harness')
+        ctx.broke('correspondence', 'C14 %dD scenario derailed the harness (%s)' % (sc['dim'], type(e).__name__),
+                  dict(scenario=_short(sc), traceback=traceback.format_exc()[-1500:]))
+        try:
+            fn = Fn(sc['fn'])
+            c = build(sc, fn)
+            for p in sc.get('points', []):
+                if classify(sc, p) == 'inside' and _single_point_oracle(ctx, dict(sc), c, fn, p):
+                    break
+            s_cached(ctx, sc)
+        except Exception as e2:  # noqa
+            ctx.fail(fail_sig(sc, 'unusable:' + type(e2).__name__),
+                     'scenario cannot be evaluated at all: %s: %s' % (type(e2).__name__, str(e2)[:200]),
+                     dict(check='values', scenario=_short(sc), point=list(sc['points'][0]) if sc.get('points') else []))
+
+
+def _run_scenario(ctx, drv, sc, nperm, do_k=True):
     """all histories of one scenario: implementation first (S), then the model against each (K)"""
     rng = ctx.rng
     n = len(sc['points'])
@@ -903,6 +1043,7 @@ def run_scenario(ctx, drv, sc, nperm, do_k=True):
         return
     s_history(ctx, sc, results)
     s_outside(ctx, sc, results)
+    s_cached(ctx, sc)
     s_values(ctx, sc, last, {1: 6, 2: 4, 3: 1}[sc['dim']], rng)
     s_bounds(ctx, sc, rng)
     ctx.count('scenario:%dD:%s' % (sc['dim'], sc['fn']['kind']))
@@ -943,7 +1084,8 @@ def run(ctx):
                     'the wrapped function is pure (same arguments -> same value)']
     ctx.assumptions += ['theorems are over an ordered field: float rounding is not modelled; S runs float-gap monitors on the real outputs',
                         'the caching area is taken to include the documented EPSILON=1e-7 extension; points within 1.5e-7 outside the area are not judged by the outside-policy oracle (counted)',
-                        'O(h^2) error bound is checked by S only (c = 1, H = largest node spacing per axis)']
+                        'O(h^2) error bound is checked by S only (c = 1, H = largest node spacing per axis)',
+                        'a point exactly on the upper edge `max` of an axis with |max| so large that max + 1e-7 rounds to max is not judged (the code rejects it; recorded as monitor_upper_edge_when_epsilon_absorbed)']
     ctx.lean_check(['Cherab.Props.C14'], 'Cherab/Audit/C14.lean')
 
     corpus_stream(ctx)
@@ -956,6 +1098,16 @@ def run(ctx):
             for _ in range(nsc[dim]):
                 sc = rnd_scenario(ctx.rng, dim)
                 run_scenario(ctx, drv, sc, 5)
+        # degenerate areas / resolutions: every mode on every axis of every class
+        reps = ctx.n(1, 12)
+        for dim in (1, 2, 3):
+            for axis in range(dim):
+                for mode in DEGENERATE:
+                    for _ in range(reps if dim < 3 else max(1, reps // 4)):
+                        if dim == 3 and ctx.tier == 'quick' and ctx.rng.random() < 0.5:
+                            continue
+                        run_scenario(ctx, drv, rnd_scenario_degenerate(ctx.rng, dim, axis, mode), 3 if dim < 3 else 2)
+                        ctx.count('degenerate:%dD:axis%d:%s' % (dim, axis, mode))
         # anisotropic resolutions (each axis in turn the fine one) and raising wrapped functions
         nan_ = {2: ctx.n(8, 300), 3: ctx.n(6, 90)}
         for dim in (2, 3):
@@ -984,6 +1136,7 @@ def run(ctx):
                     c, out = run_impl(sc, o)
                     ctx.traces += k_history(ctx, drv, sc, o, c, out, 'witness ' + w['name'])
         explore_fragile(ctx, ctx.n(30, 1500))
+        eps_absorbed_probe(ctx)
         ctx.extra['driver_lines'] = drv.lines
     finally:
         drv.close()
@@ -1010,7 +1163,7 @@ def _replay_one(ctx, rep):
             okb = got == (top if v <= x[-1] + pad else top + 1)
         if not okb:
             ctx.fail('C14:find_index:bracket', 'find_index(%r, %r, padding=%r) = %d' % (x, v, pad, got), rep)
-    elif chk in ('values', 'inside-raises', 'bounds', 'outside', 'history', 'raising'):
+    elif chk in ('values', 'inside-raises', 'bounds', 'outside', 'history', 'raising', 'cached'):
         sc = dict(rep['scenario'])
         sc['points'] = [tuple(p) for p in sc.get('points', [])]
         if sc['bounds'] is not None:
@@ -1018,7 +1171,7 @@ def _replay_one(ctx, rep):
         if sc['fn'].get('nan') is not None:
             sc['fn'] = dict(sc['fn'], nan=tuple(sc['fn']['nan']))
         fn = Fn(sc['fn'])
-        p = tuple(rep['point'])
+        p = tuple(rep.get('point') or ())
         if chk == 'history':
             results = []
             for o in rep['orders']:
@@ -1031,6 +1184,8 @@ def _replay_one(ctx, rep):
         elif chk == 'raising':
             c, out = run_impl(sc, rep['order'])
             s_raising(ctx, sc, [(rep['order'], out)])
+        elif chk == 'cached':
+            s_cached(ctx, dict(sc, points=[p] if p else sc['points']))
         elif chk == 'bounds':
             s_bounds(ctx, sc, random.Random(0))
         else:
